@@ -1,5 +1,5 @@
 (* C04 — proofs about model/ExecStack.v (ExecutionStack::pop_next with AbandonOperator /
-   next_to_finalize, commit 131551599, and the poll_execute loop).
+   next_to_finalize, commits 131551599 + c83fc4e4d, and the poll_execute loop).
    Every theorem about runs quantifies over ALL runs from `new n` (any n >= 1, any answers), by
    invariant + induction.  A history `h : list ev` lists the Effects calls NEWEST FIRST; so
    `h = post ++ e2 :: mid ++ e1 :: pre` reads "e1 was called before e2". *)
@@ -180,9 +180,8 @@ Fixpoint hist_ok (h : list ev) : Prop :=
 Definition instr_ok (f : nat) (h : list ev) (x : instr) : Prop :=
   match x with
   | IExec op _ => floor_e h <= op /\ f <= S op
-  | IFin b => floor_f h <= b /\ floor_e h <= b /\ justified b h /\ f <= b /\
-              (b <= f \/ (b <= S f /\ In (EvExec (b - 1) (ROk XExhausted)) h))
-  | IAbandon j => floor_f h <= j /\ 1 <= j /\ j < f /\ S (S j) <= floor_e h /\ justified j h
+  | IFin b => floor_f h <= b /\ floor_e h <= b /\ justified b h /\ f <= b
+  | IAbandon j => floor_f h <= j /\ 1 <= j /\ f <= j /\ S (S j) <= floor_e h /\ justified j h
   end.
 
 Definition ev_op (e : ev) : nat := match e with EvExec i _ => i | EvFin j _ => j end.
@@ -200,8 +199,7 @@ Lemma instr_ok_ev f e h x :
   floor_e (e :: h) = floor_e h -> floor_f (e :: h) = floor_f h -> instr_ok f h x -> instr_ok f (e :: h) x.
 Proof.
   intros A B. destruct x as [op st|b|j]; cbn [instr_ok]; rewrite A, ?B; [auto| |].
-  - intros (H1 & H2 & H3 & H4 & H5). repeat split; auto; [apply justified_cons; exact H3|].
-    destruct H5 as [H5|[H5 H6]]; [left; exact H5 | right; split; [exact H5 | right; exact H6]].
+  - intros (H1 & H2 & H3 & H4). repeat split; auto. apply justified_cons; exact H3.
   - intros (H1 & H2 & H3 & H4 & H5). repeat split; auto. apply justified_cons; exact H5.
 Qed.
 Lemma Forall_instr_ok_ev f e h l :
@@ -209,15 +207,14 @@ Lemma Forall_instr_ok_ev f e h l :
   Forall (instr_ok f h) l -> Forall (instr_ok f (e :: h)) l.
 Proof. intros A B F. eapply Forall_impl; [|exact F]. intros x. apply instr_ok_ev; assumption. Qed.
 
-(* pushing a completing abandon-finalize of j0: floor_e unchanged, floor_f rises to S j0 *)
+(* pushing a completing abandon-finalize of j0: floor_e unchanged, floor_f and ntf rise to S j0 *)
 Lemma instr_ok_ev_ab f e h x j0 :
   floor_e (e :: h) = floor_e h -> floor_f (e :: h) <= Nat.max (S j0) (floor_f h) ->
-  is_exec x = false /\ j0 < iop x -> instr_ok f h x -> instr_ok f (e :: h) x.
+  is_exec x = false /\ j0 < iop x -> instr_ok f h x -> instr_ok (Nat.max f (S j0)) (e :: h) x.
 Proof.
   intros A B [C1 C2]. destruct x as [op st|b|j]; cbn [instr_ok iop] in *; rewrite A; [discriminate| |].
-  - intros (H1 & H2 & H3 & H4 & H5). repeat split; auto; [lia | apply justified_cons; exact H3|].
-    destruct H5 as [H5|[H5 H6]]; [left; exact H5 | right; split; [exact H5 | right; exact H6]].
-  - intros (H1 & H2 & H3 & H4 & H5). repeat split; auto; [lia | apply justified_cons; exact H5].
+  - intros (H1 & H2 & H3 & H4). repeat split; auto; [lia | apply justified_cons; exact H3 | lia].
+  - intros (H1 & H2 & H3 & H4 & H5). repeat split; auto; [lia | lia | apply justified_cons; exact H5].
 Qed.
 
 Definition Xh (k : nat) : ev := EvExec k (ROk XExhausted).
@@ -231,7 +228,7 @@ Record SInv (n : nat) (s : stack) (h : list ev) : Prop := {
   si_ff : floor_f h <= ntf s;
   si_ok : Forall (instr_ok (ntf s) h) (instrs s);
   si_h : hist_ok h;
-  si_exh : forall k, In (Xh k) h -> k = n - 1 \/ k <= ntf s
+  si_exh : forall k, In (Xh k) h -> S k <= floor_e h
 }.
 
 Lemma sinv_new n s0 : new n = Some s0 -> SInv n s0 [].
@@ -248,8 +245,9 @@ Ltac inv_forall :=
 
 Ltac exh_tac Hexh :=
   let k := fresh "k" in let E := fresh "E" in
-  intros k [E|E]; [ unfold Xh in E; try discriminate E; inversion E; subst; lia
-                  | destruct (Hexh k E); lia ].
+  intros k [E|E]; cbn [floor_e];
+  [ unfold Xh in E; try discriminate E; inversion E; subst; cbn [fe_of]; lia
+  | pose proof (Hexh k E); lia ].
 Ltac ok_same :=
   first [ apply Forall_instr_ok_ev; [reflexivity|reflexivity|assumption]
         | apply instr_ok_ev; [reflexivity|reflexivity|cbn [instr_ok]; auto] ].
@@ -307,9 +305,7 @@ Proof.
         repeat split; try lia. right. right. exists op. split; [lia | left; reflexivity].
       * constructor; [|constructor]. cbn [instr_ok floor_e floor_f fe_of ff_of].
         repeat split; try lia.
-        -- left. replace (S op - 1) with op by lia. left. reflexivity.
-        -- destruct (le_lt_dec (S op) f0); [left; lia|right]. split; [lia|].
-           replace (S op - 1) with op by lia. left. reflexivity.
+        left. replace (S op - 1) with op by lia. left. reflexivity.
   - (* exec RErr *)
     s9 Hpos Hexh; [eapply wf_tail; exact Hwf0 | tauto | ok_same].
   - (* IFin 0: panic *)
@@ -511,53 +507,43 @@ Proof.
   eexists. eexists. vm_compute. reflexivity.
 Qed.
 
-(* ---------- NEW: Exhausted at k finalizes every not-yet-finalized upstream operator? ---------- *)
+(* ---------- Exhausted at k finalizes every not-yet-finalized upstream operator ---------- *)
 Definition fin_done (h : list ev) (j : nat) : bool :=
   existsb (fun e => match e with EvFin j' a => (j' =? j) && fin_completes a | _ => false end) h.
 Definition exhausted (h : list ev) (j : nat) : bool :=
   existsb (fun e => match e with EvExec j' (ROk XExhausted) => j' =? j | _ => false end) h.
 
-(* FULL statement wanted: on a run without RErr/Panic, when the stack reports Finished, every
-   operator j with 1 <= j < k upstream of an operator k that answered Exhausted has received a
-   completing handle_finalize.  REFUTED: after Exhausted at k the stack is
-   [Exec(k+1); Abandon ntf..k-1; Fin(k+1)] and ntf is already k; if Exec(k+1) answers Exhausted too,
-   instructions.clear() drops the pending Abandons and the new range (ntf..k+1) = {k} does not
-   contain them.  Witness n = 5: Ready(0) Ready(1) Exhausted(2) Exhausted(3) NeedsMore(4)
-   Finalized(abandon 2) Finalized(fin 4) -> Finished; operator 1 never gets a finalize (and is not
-   exhausted itself). *)
-Theorem stack_exhausted_finalizes_all_upstream_refuted :
-  exists s0 script s h p,
-    new 5 = Some s0 /\ run_h s0 [] script = (s, h) /\
-    Forall (fun q => on_exec q <> RErr /\ on_fin q <> RErr) script /\
-    (forall pre q post, script = pre ++ q :: post ->
-       ctl (fst (run_h s0 [] pre)) q = Continue) /\
-    ctl s p = Finished /\ cl s p = CFin 4 /\
-    exhausted h 2 = true /\ fin_done h 1 = false /\ exhausted h 1 = false.
-Proof.
-  eexists. exists [px XReady; px XReady; px XExhausted; px XExhausted; px XNeedsMore; px XReady].
-  eexists. eexists. exists (px XReady).
-  split; [reflexivity|]. split; [reflexivity|].
-  split; [repeat constructor; discriminate|].
-  split; [|repeat split; reflexivity].
-  intros pre q post E.
-  destruct pre as [|a1 [|a2 [|a3 [|a4 [|a5 [|a6 [|a7 pre]]]]]]]; inversion E; subst; try reflexivity.
-Qed.
+(* Remark (machine of commit 131551599, before c83fc4e4d): there next_to_finalize was advanced to k
+   already when k answered Exhausted, and the statement below was REFUTED with n = 5:
+   Ready(0) Ready(1) Exhausted(2) Exhausted(3) NeedsMore(4) Finalized(abandon 2) Finalized(fin 4)
+   -> Finished, operator 1 never finalized (the second Exhausted cleared the pending Abandon 1 and
+   the new range ntf..3 = {2} no longer contained it).  On the present machine the same script
+   re-creates Abandon 1; see stack_exhausted_op_itself_finalized_only_by_later_exhaust. *)
 
-(* What holds.  Discipline `ab_step_ok`: (i) no AbandonOperator's handle_finalize fails (RErr), and
-   (ii) no execute answers Exhausted while an IAbandon is still on the stack.  On every run from
-   `new n` that respects it, every operator j with 1 <= j < next_to_finalize is covered: it received
-   a completing handle_finalize, or it is a pending IAbandon on the stack, or it answered Exhausted
-   itself.  What is missing for the full statement is (ii): the engine must not drop pending
-   AbandonOperator instructions when the stack is cleared (or must not advance next_to_finalize
-   before they ran). *)
 Definition has_abandon (l : list instr) : bool :=
   existsb (fun x => match x with IAbandon _ => true | _ => false end) l.
+(* The discipline: (i) no AbandonOperator's handle_finalize fails (RErr pops the instruction
+   unfinalized); (ii) the SINK does not answer Exhausted while an IAbandon is pending (that is a
+   pop_next error, "Last operator returned Exhausted", which clears the stack).  Both are implied by
+   "pop_next never returns Err" (no_error_step_ok); nothing is assumed about execute RErr, finalize
+   RErr of FinalizeOperator, or later Exhausted answers of non-sink operators. *)
 Definition ab_step_ok (s : stack) (p : poll) : bool :=
   match instrs s with
   | IAbandon _ :: _ => match on_fin p with RErr => false | _ => true end
-  | IExec _ _ :: _ => match on_exec p with ROk XExhausted => negb (has_abandon (instrs s)) | _ => true end
+  | IExec op _ :: _ =>
+      match on_exec p with
+      | ROk XExhausted => negb (is_last s op && has_abandon (instrs s))
+      | _ => true
+      end
   | _ => true
   end.
+
+Lemma no_error_step_ok s p : (forall e, ctl s p <> Error e) -> ab_step_ok s p = true.
+Proof.
+  unfold ab_step_ok.
+  pop_cases s p; intros H; try reflexivity; try (exfalso; eapply H; reflexivity).
+Qed.
+
 Inductive reachD (n : nat) : stack -> list ev -> Prop :=
 | reachD_new s0 : new n = Some s0 -> reachD n s0 []
 | reachD_pop s h p : reachD n s h -> ab_step_ok s p = true -> reachD n (nx s p) (ev_of (cl s p) p ++ h).
@@ -565,144 +551,241 @@ Inductive reachD (n : nat) : stack -> list ev -> Prop :=
 Lemma reachD_reach n s h : reachD n s h -> reach n s h.
 Proof. induction 1; [apply reach_new; assumption | apply reach_pop; assumption]. Qed.
 
-Definition covered (s : stack) (h : list ev) (j : nat) : Prop :=
-  fin_done h j = true \/ In (IAbandon j) (instrs s) \/ exhausted h j = true.
-
 Lemma fin_done_cons e h j : fin_done h j = true -> fin_done (e :: h) j = true.
 Proof. unfold fin_done. cbn [existsb]. intros H. rewrite H. apply orb_true_r. Qed.
 Lemma exhausted_cons e h j : exhausted h j = true -> exhausted (e :: h) j = true.
 Proof. unfold exhausted. cbn [existsb]. intros H. rewrite H. apply orb_true_r. Qed.
-
+Lemma exhausted_in h k : In (Xh k) h -> exhausted h k = true.
+Proof.
+  unfold exhausted. intros H. apply existsb_exists. exists (Xh k). split; [exact H|].
+  cbn. apply Nat.eqb_refl.
+Qed.
 Lemma has_abandon_false l j : has_abandon l = false -> ~ In (IAbandon j) l.
 Proof.
   induction l as [|x l IH]; cbn [has_abandon existsb In]; [tauto|].
   destruct x; cbn [orb]; try discriminate; intros H [E|E]; try discriminate; apply IH; assumption.
 Qed.
 
-Lemma exhausted_in h k : In (Xh k) h -> exhausted h k = true.
+(* the pending abandons are exactly the contiguous range starting at next_to_finalize, and the
+   FinalizeOperator below them is for the next operator, or skips exactly one EXHAUSTED operator *)
+Fixpoint gap_ok (h : list ev) (l : list instr) (f : nat) : Prop :=
+  match l with
+  | [] => True
+  | IExec _ _ :: rest => gap_ok h rest f
+  | IAbandon j :: rest => j = f /\ gap_ok h rest (S j)
+  | IFin b :: _ => b = f \/ (b = S f /\ exhausted h f = true)
+  end.
+
+Lemma gap_ok_cons e h : forall l f, gap_ok h l f -> gap_ok (e :: h) l f.
 Proof.
-  unfold exhausted. intros H. apply existsb_exists. exists (Xh k). split; [exact H|].
-  cbn. apply Nat.eqb_refl.
+  induction l as [|x l IH]; intros f; cbn [gap_ok]; [auto|].
+  destruct x as [op st|b|j]; [apply IH | | intros [A B]; split; [exact A | apply IH; exact B]].
+  intros [A|[A B]]; [left; exact A | right; split; [exact A | apply exhausted_cons; exact B]].
 Qed.
 
-Ltac cov_weak C :=
-  let j := fresh "j" in let Hj := fresh "Hj" in let D := fresh "D" in let A := fresh "A" in let X := fresh "X" in
-  intros j Hj; destruct (C j Hj) as [D|[A|X]];
-  [ left; first [exact D | apply fin_done_cons; exact D]
-  | right; left; cbn [instrs In] in *; try (destruct A as [A|A]; [discriminate A|]); tauto
-  | right; right; first [exact X | apply exhausted_cons; exact X] ].
+Lemma gap_ok_seq h b : forall len a,
+  (b = a + len \/ (b = S (a + len) /\ exhausted h (a + len) = true)) ->
+  gap_ok h (map IAbandon (seq a len) ++ [IFin b]) a.
+Proof.
+  induction len as [|len IH]; intros a H; cbn [seq map app gap_ok].
+  - rewrite Nat.add_0_r in H. exact H.
+  - split; [reflexivity|]. apply IH. replace (S a + len) with (a + S len) by lia. exact H.
+Qed.
 
-Lemma cov_fin_complete f0 b h a l' :
-  f0 <= b -> (b <= f0 \/ (b <= S f0 /\ In (EvExec (b - 1) (ROk XExhausted)) h)) ->
-  (forall j, 1 <= j < f0 -> fin_done h j = true \/ In (IAbandon j) [IFin b] \/ exhausted h j = true) ->
+Record CInv (n : nat) (s : stack) (h : list ev) : Prop := {
+  c_done : forall j, 1 <= j < ntf s -> fin_done h j = true \/ exhausted h j = true;
+  c_gap : gap_ok h (instrs s) (ntf s);
+  c_pend : forall k, In (Xh k) h -> k <> n - 1 -> forall j, ntf s <= j < k -> In (IAbandon j) (instrs s)
+}.
+
+Lemma cinv_fin_complete f b h a :
+  (b = f \/ (b = S f /\ exhausted h f = true)) ->
+  (forall j, 1 <= j < f -> fin_done h j = true \/ exhausted h j = true) ->
   fin_completes a = true ->
-  forall j, 1 <= j < Nat.max f0 (S b) ->
-    fin_done (EvFin b a :: h) j = true \/ In (IAbandon j) l' \/ exhausted (EvFin b a :: h) j = true.
+  forall j, 1 <= j < Nat.max f (S b) ->
+    fin_done (EvFin b a :: h) j = true \/ exhausted (EvFin b a :: h) j = true.
 Proof.
-  intros K1 K2 C Hc j Hj. destruct (Nat.eq_dec j b) as [E|E].
+  intros G C Hc j Hj. destruct (Nat.eq_dec j b) as [E|E].
   - left. subst j. unfold fin_done. cbn [existsb]. rewrite Nat.eqb_refl, Hc. reflexivity.
-  - destruct (le_lt_dec f0 j) as [G|G].
-    + right. right. apply exhausted_cons. apply exhausted_in.
-      destruct K2 as [K2|[K2 K3]]; [lia|]. replace j with (b - 1) by lia. exact K3.
-    + destruct (C j (conj (proj1 Hj) G)) as [D|[A|X]];
-      [left; apply fin_done_cons; exact D | destruct A as [A|A]; [discriminate A|destruct A]
-      | right; right; apply exhausted_cons; exact X].
+  - destruct (le_lt_dec f j) as [L|L].
+    + right. apply exhausted_cons. destruct G as [G|[G1 G2]]; [lia|]. replace j with f by lia. exact G2.
+    + destruct (C j (conj (proj1 Hj) L)) as [D|X];
+        [left; apply fin_done_cons; exact D | right; apply exhausted_cons; exact X].
 Qed.
 
-Lemma cov_step n s h p :
-  reach n s h -> (forall j, 1 <= j < ntf s -> covered s h j) -> ab_step_ok s p = true ->
-  forall j, 1 <= j < ntf (nx s p) -> covered (nx s p) (ev_of (cl s p) p ++ h) j.
+Ltac c_weak C1 C2 C3 :=
+  constructor; cbn [nops instrs ntf];
+  [ let j := fresh "j" in let Hj := fresh "Hj" in let D := fresh "D" in
+    intros j Hj; destruct (C1 j Hj) as [D|D];
+    [ left; first [exact D | apply fin_done_cons; exact D]
+    | right; first [exact D | apply exhausted_cons; exact D] ]
+  | first [ exact C2 | apply gap_ok_cons; exact C2 | (cbn [gap_ok]; exact I) ]
+  | let k := fresh "k" in let E := fresh "E" in let Hk := fresh "Hk" in
+    let j := fresh "j" in let Hj := fresh "Hj" in let Q := fresh "Q" in
+    intros k E Hk j Hj;
+    try (destruct E as [E|E]; [unfold Xh in E; discriminate E|]);
+    pose proof (C3 k E Hk j Hj) as Q;
+    first [ exact Q | cbn [In] in *; destruct Q as [Q|Q]; [discriminate Q|]; tauto ] ].
+
+Lemma cinv_step n s h p :
+  reach n s h -> CInv n s h -> ab_step_ok s p = true -> CInv n (nx s p) (ev_of (cl s p) p ++ h).
 Proof.
   intros R. pose proof (sinv_reach _ _ _ R) as [Hn Hpos Hwf Hab Hf1 Hff Hok Hh Hexh]. clear R.
-  unfold covered, ab_step_ok.
-  pop_cases s p; intros C Hd; subst; cbn [ev_of app]; try rewrite Ea; try rewrite Ef;
-    try discriminate Hd; inv_forall; cbn [instr_ok] in *.
-  - (* empty *) exact C.
-  - (* Ready last *) destruct st; cov_weak C.
-  - destruct st; cov_weak C.
-  - cov_weak C.
-  - cov_weak C.
-  - cov_weak C.
-  - cov_weak C.
+  intros [C1 C2 C3]. unfold ab_step_ok.
+  pop_cases s p; intros Hd; subst; cbn [ev_of app]; try rewrite Ea; try rewrite Ef;
+    try discriminate Hd; inv_forall; cbn [instr_ok] in *; cbn [nops instrs ntf] in *.
+  - (* empty *) constructor; assumption.
+  - (* Ready last *) destruct st; c_weak C1 C2 C3.
+  - destruct st; c_weak C1 C2 C3.
+  - c_weak C1 C2 C3.
+  - c_weak C1 C2 C3.
+  - c_weak C1 C2 C3.
+  - c_weak C1 C2 C3.
   - (* Exhausted, last *)
-    apply negb_true_iff in Hd. intros j Hj. destruct (C j Hj) as [D|[A|X]];
-      [left; apply fin_done_cons; exact D | exfalso; exact (has_abandon_false _ _ Hd A)
-      | right; right; apply exhausted_cons; exact X].
+    cbn [andb] in Hd. apply negb_true_iff in Hd.
+    constructor; cbn [nops instrs ntf gap_ok]; [|exact I|].
+    + intros j Hj. destruct (C1 j Hj) as [D|D];
+        [left; apply fin_done_cons; exact D | right; apply exhausted_cons; exact D].
+    + intros k [E|E] Hk j Hj; [unfold Xh in E; inversion E; subst; lia|].
+      exfalso. exact (has_abandon_false _ _ Hd (C3 k E Hk j Hj)).
   - (* Exhausted, not last *)
-    apply negb_true_iff in Hd. intros j Hj. cbn [instrs].
-    destruct (le_lt_dec f0 j) as [G|G].
-    + right. left. right. apply in_or_app. left. apply in_map. apply in_seq. lia.
-    + destruct (C j (conj (proj1 Hj) G)) as [D|[A|X]];
-      [left; apply fin_done_cons; exact D | exfalso; exact (has_abandon_false _ _ Hd A)
-      | right; right; apply exhausted_cons; exact X].
-  - cov_weak C.
-  - (* panic *) cov_weak C.
+    match goal with H : floor_e h <= op /\ f0 <= S op |- _ => destruct H as [K1 K2] end.
+    assert (IN : forall j, f0 <= j < op ->
+              In (IAbandon j) (IExec (S op) false :: map IAbandon (seq f0 (op - f0)) ++ [IFin (S op)])).
+    { intros j Hj. right. apply in_or_app. left. apply in_map. apply in_seq. lia. }
+    constructor; cbn [nops instrs ntf gap_ok].
+    + intros j Hj. destruct (C1 j Hj) as [D|D];
+        [left; apply fin_done_cons; exact D | right; apply exhausted_cons; exact D].
+    + apply gap_ok_seq. destruct (le_lt_dec f0 op) as [L|L].
+      * right. replace (f0 + (op - f0)) with op by lia. split; [reflexivity|].
+        unfold exhausted. cbn [existsb]. rewrite Nat.eqb_refl. reflexivity.
+      * left. lia.
+    + intros k [E|E] Hk j Hj; [unfold Xh in E; inversion E; subst; apply IN; lia|].
+      pose proof (Hexh k E). apply IN. lia.
+  - c_weak C1 C2 C3.
+  - (* panic: IFin 0 is never on the stack *) exfalso. cbn [strip wf] in Hwf. lia.
   - (* Finalized, last *)
     cbn [ab_ok] in Hab; destruct Hab as [Ha1 _]; destruct rest; [|cbn [ab_head] in Ha1; contradiction].
-    cbn [instrs] in *. apply cov_fin_complete; try tauto; reflexivity.
+    cbn [gap_ok] in C2. constructor; cbn [nops instrs ntf gap_ok]; [|exact I|].
+    + apply cinv_fin_complete; [exact C2 | exact C1 | reflexivity].
+    + intros k [E|E] Hk j Hj; [unfold Xh in E; discriminate E|].
+      exfalso. assert (Hj' : f0 <= j < k) by lia. destruct (C3 k E Hk j Hj') as [Q|[]]. discriminate Q.
   - (* Finalized, not last *)
     cbn [ab_ok] in Hab; destruct Hab as [Ha1 _]; destruct rest; [|cbn [ab_head] in Ha1; contradiction].
-    cbn [instrs] in *. apply cov_fin_complete; try tauto; reflexivity.
+    cbn [gap_ok] in C2. constructor; cbn [nops instrs ntf gap_ok].
+    + apply cinv_fin_complete; [exact C2 | exact C1 | reflexivity].
+    + left. lia.
+    + intros k [E|E] Hk j Hj; [unfold Xh in E; discriminate E|].
+      exfalso. assert (Hj' : f0 <= j < k) by lia. destruct (C3 k E Hk j Hj') as [Q|[]]. discriminate Q.
   - (* NeedsDrain, last *)
     cbn [ab_ok] in Hab; destruct Hab as [Ha1 _]; destruct rest; [|cbn [ab_head] in Ha1; contradiction].
-    cbn [instrs] in *. apply cov_fin_complete; try tauto; reflexivity.
+    cbn [gap_ok] in C2. constructor; cbn [nops instrs ntf gap_ok]; [|exact I|].
+    + apply cinv_fin_complete; [exact C2 | exact C1 | reflexivity].
+    + intros k [E|E] Hk j Hj; [unfold Xh in E; discriminate E|].
+      exfalso. assert (Hj' : f0 <= j < k) by lia. destruct (C3 k E Hk j Hj') as [Q|[]]. discriminate Q.
   - (* NeedsDrain, not last *)
     cbn [ab_ok] in Hab; destruct Hab as [Ha1 _]; destruct rest; [|cbn [ab_head] in Ha1; contradiction].
-    cbn [instrs] in *. apply cov_fin_complete; try tauto; reflexivity.
-  - cov_weak C.
-  - cov_weak C.
+    cbn [gap_ok] in C2. constructor; cbn [nops instrs ntf gap_ok]; [|exact I|].
+    + apply cinv_fin_complete; [exact C2 | exact C1 | reflexivity].
+    + intros k [E|E] Hk j Hj; [unfold Xh in E; discriminate E|].
+      exfalso. assert (Hj' : f0 <= j < k) by lia. destruct (C3 k E Hk j Hj') as [Q|[]]. discriminate Q.
+  - (* fin Pending *) c_weak C1 C2 C3.
+  - (* fin RErr *)
+    cbn [ab_ok] in Hab; destruct Hab as [Ha1 _]; destruct rest; [|cbn [ab_head] in Ha1; contradiction].
+    c_weak C1 C2 C3.
   - (* abandon Finalized *)
-    intros j Hj. cbn [instrs] in *. destruct (Nat.eq_dec j op) as [E|E].
-    + left. subst j. unfold fin_done. cbn [existsb fin_completes]. rewrite Nat.eqb_refl. reflexivity.
-    + destruct (C j Hj) as [D|[A|X]];
-      [left; apply fin_done_cons; exact D
-      | right; left; destruct A as [A|A]; [inversion A; congruence | exact A]
-      | right; right; apply exhausted_cons; exact X].
+    cbn [gap_ok] in C2. destruct C2 as [G1 G2]. subst f0.
+    replace (Nat.max op (S op)) with (S op) by lia.
+    constructor; cbn [nops instrs ntf].
+    + intros j Hj. destruct (Nat.eq_dec j op) as [E|E].
+      * left. subst j. unfold fin_done. cbn [existsb fin_completes]. rewrite Nat.eqb_refl. reflexivity.
+      * destruct (C1 j ltac:(lia)) as [D|D];
+          [left; apply fin_done_cons; exact D | right; apply exhausted_cons; exact D].
+    + apply gap_ok_cons. exact G2.
+    + intros k [E|E] Hk j Hj; [unfold Xh in E; discriminate E|].
+      destruct (C3 k E Hk j ltac:(lia)) as [Q|Q]; [inversion Q; lia | exact Q].
   - (* abandon NeedsDrain *)
-    intros j Hj. cbn [instrs] in *. destruct (Nat.eq_dec j op) as [E|E].
-    + left. subst j. unfold fin_done. cbn [existsb fin_completes]. rewrite Nat.eqb_refl. reflexivity.
-    + destruct (C j Hj) as [D|[A|X]];
-      [left; apply fin_done_cons; exact D
-      | right; left; destruct A as [A|A]; [inversion A; congruence | exact A]
-      | right; right; apply exhausted_cons; exact X].
-  - (* abandon Pending *)
-    intros j Hj. destruct (C j Hj) as [D|[A|X]];
-      [left; apply fin_done_cons; exact D | right; left; exact A | right; right; apply exhausted_cons; exact X].
+    cbn [gap_ok] in C2. destruct C2 as [G1 G2]. subst f0.
+    replace (Nat.max op (S op)) with (S op) by lia.
+    constructor; cbn [nops instrs ntf].
+    + intros j Hj. destruct (Nat.eq_dec j op) as [E|E].
+      * left. subst j. unfold fin_done. cbn [existsb fin_completes]. rewrite Nat.eqb_refl. reflexivity.
+      * destruct (C1 j ltac:(lia)) as [D|D];
+          [left; apply fin_done_cons; exact D | right; apply exhausted_cons; exact D].
+    + apply gap_ok_cons. exact G2.
+    + intros k [E|E] Hk j Hj; [unfold Xh in E; discriminate E|].
+      destruct (C3 k E Hk j ltac:(lia)) as [Q|Q]; [inversion Q; lia | exact Q].
+  - (* abandon Pending *) c_weak C1 C2 C3.
 Qed.
 
-Lemma cov_reachD n s h : reachD n s h -> forall j, 1 <= j < ntf s -> covered s h j.
+Lemma cinv_reachD n s h : reachD n s h -> CInv n s h.
 Proof.
   induction 1 as [s0 H|s h p R IH D].
-  - unfold new in H. destruct (n =? 0); [discriminate|]. inversion H; subst. cbn [ntf]. intros j Hj. lia.
-  - apply (cov_step n); [apply reachD_reach; exact R | exact IH | exact D].
+  - unfold new in H. destruct (n =? 0); [discriminate|]. inversion H; subst.
+    constructor; cbn [nops instrs ntf gap_ok]; [intros j Hj; lia | exact I | intros k []].
+  - apply cinv_step; [apply reachD_reach; exact R | exact IH | exact D].
 Qed.
 
-(* On disciplined runs, when the stack is empty (= the next pop_next reports Finished; in particular
-   right after finalize(n-1) answered Finalized), every operator j with 1 <= j < k upstream of a
-   non-sink operator k that answered Exhausted has received its completing handle_finalize -- exactly
-   one, by stack_finalize_once_in_order (a) -- or answered Exhausted itself. *)
-Theorem stack_exhausted_finalizes_all_upstream_partial n s h :
+(* FULL STRENGTH on the present machine.  On every run from `new n` that respects ab_step_ok
+   (in particular: on every run where pop_next never returns Err), at every moment:
+   (1) every operator 1 <= j < next_to_finalize received a completing handle_finalize, or is an
+       operator that answered Exhausted itself (the one FinalizeOperator(S k) steps over);
+   (2) for every non-sink operator k that answered Exhausted, every not yet finalized upstream
+       operator next_to_finalize <= j < k is a pending IAbandon j on the stack -- later Exhausted
+       answers re-create them, nothing is dropped;
+   (3) hence when the stack is empty (the next pop_next reports Finished; in particular right after
+       finalize(n-1) answered Finalized) every operator 1 <= j < k upstream of an exhausted non-sink
+       operator k received its completing handle_finalize -- exactly one, by
+       stack_finalize_once_in_order (a) -- or answered Exhausted itself. *)
+Theorem stack_exhausted_finalizes_all_upstream n s h :
   reachD n s h ->
-  (forall j, 1 <= j < ntf s -> fin_done h j = true \/ In (IAbandon j) (instrs s) \/ exhausted h j = true) /\
+  (forall j, 1 <= j < ntf s -> fin_done h j = true \/ exhausted h j = true) /\
+  (forall k, In (EvExec k (ROk XExhausted)) h -> k <> n - 1 ->
+     forall j, ntf s <= j < k -> In (IAbandon j) (instrs s)) /\
   (instrs s = [] -> forall k j, In (EvExec k (ROk XExhausted)) h -> k <> n - 1 -> 1 <= j < k ->
      fin_done h j = true \/ exhausted h j = true).
 Proof.
-  intros R. pose proof (cov_reachD _ _ _ R) as C. split; [exact C|].
-  intros E k j Hk Hl Hj.
-  pose proof (si_exh _ _ _ (sinv_reach _ _ _ (reachD_reach _ _ _ R)) k Hk) as [X|X]; [contradiction|].
-  destruct (C j (conj (proj1 Hj) (Nat.lt_le_trans _ _ _ (proj2 Hj) X))) as [D|[A|Y]]; auto.
-  rewrite E in A. destruct A.
+  intros R. destruct (cinv_reachD _ _ _ R) as [C1 C2 C3]. split; [exact C1|]. split; [exact C3|].
+  intros E k j Hk Hl Hj. destruct (le_lt_dec (ntf s) j) as [L|L].
+  - exfalso. pose proof (C3 k Hk Hl j (conj L (proj2 Hj))) as Q. rewrite E in Q. destruct Q.
+  - apply C1. lia.
 Qed.
-Example stack_exhausted_finalizes_all_upstream_partial_hyps :
+Example stack_exhausted_finalizes_all_upstream_hyps :
   exists n s h k j, reachD n s h /\ instrs s = [] /\ In (EvExec k (ROk XExhausted)) h /\ k <> n - 1 /\ 1 <= j < k.
 Proof.
-  exists 4.
-  pose (sc := [px XReady; px XReady; px XExhausted; px XNeedsMore; px XReady; px XReady]).
-  exists (fst (run_h (mk 4) [] sc)), (snd (run_h (mk 4) [] sc)), 2, 1.
+  exists 5.
+  pose (sc := [px XReady; px XReady; px XExhausted; px XExhausted; px XNeedsMore;
+               px XReady; px XReady; px XReady]).
+  exists (fst (run_h (mk 5) [] sc)), (snd (run_h (mk 5) [] sc)), 3, 1.
   split.
   - unfold sc. cbn [run_h].
     repeat (apply reachD_pop; [|reflexivity]). apply reachD_new. reflexivity.
-  - split; [reflexivity|]. split; [|lia]. cbn. auto 10.
+  - split; [reflexivity|]. split; [|lia]. cbn. auto 12.
+Qed.
+
+(* The exhausted operator k itself.  FinalizeOperator(S k) steps over it, so after answering
+   Exhausted it receives handle_finalize only through AbandonOperator(k), i.e. only if a later
+   operator k' > k answers Exhausted before FinalizeOperator(S k) completed; otherwise never.
+   Both behaviours, by computation (n = 5, k = 2):
+   (a) Ready(0) Ready(1) Exhausted(2) Exhausted(3) NeedsMore(4), then Abandon 1, Abandon 2 and
+       Fin 4 answer Finalized -> Finished: operators 1 and 2 finalized (3, exhausted last, is not);
+   (b) Ready(0) Ready(1) Exhausted(2) NeedsMore(3), then Abandon 1, Fin 3 and Fin 4 answer
+       Finalized -> Finished: operators 1 and 3 finalized, operator 2 never.
+   (An operator can also have been finalized BEFORE it answers Exhausted: FinalizeOperator(k)
+   answering NeedsDrain makes k the pipeline start, which later answers Exhausted.) *)
+Theorem stack_exhausted_op_itself_finalized_only_by_later_exhaust :
+  (exists script s h p, run_h (mk 5) [] script = (s, h) /\ ctl s p = Finished /\ cl s p = CFin 4 /\
+     exhausted h 2 = true /\ exhausted h 3 = true /\
+     fin_done h 1 = true /\ fin_done h 2 = true /\ fin_done h 3 = false) /\
+  (exists script s h p, run_h (mk 5) [] script = (s, h) /\ ctl s p = Finished /\ cl s p = CFin 4 /\
+     exhausted h 2 = true /\ exhausted h 3 = false /\
+     fin_done h 1 = true /\ fin_done h 2 = false /\ fin_done h 3 = true).
+Proof.
+  split.
+  - exists [px XReady; px XReady; px XExhausted; px XExhausted; px XNeedsMore; px XReady; px XReady].
+    eexists. eexists. exists (px XReady). split; [reflexivity|]. repeat split; reflexivity.
+  - exists [px XReady; px XReady; px XExhausted; px XNeedsMore; px XReady; px XReady].
+    eexists. eexists. exists (px XReady). split; [reflexivity|]. repeat split; reflexivity.
 Qed.
 
 Definition bufs := nat -> bool.
@@ -1101,8 +1184,9 @@ Print Assumptions stack_delivers_each_batch_once.
 Print Assumptions stack_delivers_each_batch_once_without_discipline_refuted.
 Print Assumptions stack_exhausted_ops_never_run_again.
 Print Assumptions stack_finalize_once_in_order.
-Print Assumptions stack_exhausted_finalizes_all_upstream_refuted.
-Print Assumptions stack_exhausted_finalizes_all_upstream_partial.
+Print Assumptions stack_exhausted_finalizes_all_upstream.
+Print Assumptions stack_exhausted_op_itself_finalized_only_by_later_exhaust.
+Print Assumptions no_error_step_ok.
 Print Assumptions stack_terminates.
 Print Assumptions stack_work_step_bounded.
 Print Assumptions stack_M1_bounded.
